@@ -46,7 +46,7 @@ var interpPkgs = map[string]bool{
 	"github.com/boljen/go-bitmap": true, "github.com/dchest/siphash": true, "internal/filepathlite": true,
 	"io/fs": true, "internal/oserror": true, "time": true, "io/ioutil": true, "os": true, "syscall": true,
 	"internal/byteorder": true, "net/http": true, "net/url": true, "net/textproto": true, "maps": true, "iter": true,
-	"container/list": true, "hash/crc32": false, "archive/tar": true, "internal/godebug": false,
+	"container/list": true, "github.com/folbricht/tempfile": true, "hash/crc32": false, "archive/tar": true, "internal/godebug": false,
 }
 
 // Packages whose init functions are run.
@@ -67,7 +67,7 @@ var opaquePkgs = map[string]bool{
 	"golang.org/x/crypto/ssh/terminal": true, "github.com/klauspost/compress/zstd": true, "internal/godebug": true,
 	"unicode": false, "internal/testlog": true, "internal/poll": true, "internal/syscall/unix": true, "internal/race": true,
 	"os/exec": true, "math/rand": true, "internal/cpu": true, "golang.org/x/sys/unix": true, "internal/syscall/execenv": true,
-	"internal/abi": true, "internal/runtime/atomic": true,
+	"internal/abi": true, "github.com/pkg/xattr": true, "internal/runtime/atomic": true,
 }
 
 func fnPkgPath(fn *ssa.Function) string {
